@@ -6,6 +6,7 @@ import TinsModel.Crypto.LemmasTkip
 import TinsModel.Crypto.LemmasHandshake
 import TinsModel.Crypto.LemmasKdf
 import TinsModel.Crypto.LemmasHistory
+import TinsModel.Crypto.LemmasWire
 /-
   Property C09 — WEP / TKIP / CCMP decryption recovers exactly the plaintext, safely.
   Theorems only (helper lemmas live in TinsModel/Crypto/Lemmas*.lean).
@@ -593,5 +594,43 @@ private def exHistory : List Parsed :=
 example : ((({} : Track).runDec (exAp, exSta) (exAp, exSta) exAp exHistory).map fun t => t.completed.length) = some 2 := by
   decide
 end HistoryExample
+
+/-! ## Frame bytes → handshake message fields / SSID: the C09 parsing models are the wire family's
+
+The Wifi wire family (TinsModel/Wire/Wifi) models `RSNEAPOL`, `Dot11Beacon` and the tagged parameters byte for byte
+and carries their C01 (no fault), C02 (writes only its header), C03 (re-parse) theorems.  The three theorems below say
+that the models used by the handshake / key-learning theorems above are the same functions of the bytes. -/
+
+/-- **RSNEAPOL parsing**: `parseEapol` (what `msgClass`, `Eapol.nonce`, `Eapol.mic`, `keyDescriptor` read from) and
+    `Wire.Wifi.Eapol.fromBytes` agree on every byte string -/
+theorem rsneapol_parse_is_wire_model (b : Bytes) :
+    (b.length < 5 → parseEapol b = .error .malformedPacket ∧ Tins.Wire.Wifi.Eapol.fromBytes b = .throw .malformedPacket) ∧
+    (5 ≤ b.length → (b.getD 4 0 = 2 ∨ b.getD 4 0 = 254) →
+      (parseEapol b = .error .malformedPacket ∧ Tins.Wire.Wifi.Eapol.fromBytes b = .throw .malformedPacket) ∨
+      ∃ r, Tins.Wire.Wifi.Eapol.fromBytes b = .ok (some r) ∧ r.1.rsn = true ∧
+        parseEapol b = .ok (some (Tins.CryptoWire.eapolView r))) ∧
+    (5 ≤ b.length → b.getD 4 0 ≠ 2 → b.getD 4 0 ≠ 254 →
+      parseEapol b = .ok none ∧ (b.getD 4 0 ≠ 1 → Tins.Wire.Wifi.Eapol.fromBytes b = .ok none)) :=
+  Tins.CryptoWire.parseEapol_agrees b
+
+/-- **RSNEAPOL serialization** (the bytes the MIC of message 4 is computed over): `Eapol.serialize` is
+    `write_serialization` of the wire family followed by the trailing `RawPDU`, whatever the stored length field and
+    the previous content of the buffer -/
+theorem rsneapol_serialize_is_wire_model (e : Eapol) (hh : e.hdr.length = 94) (l0 l1 : UInt8) (pre : Bytes)
+    (hpre : pre.length = 99 + e.key.length) :
+    Tins.Wire.Wifi.Eapol.write ⟨true, [e.version, e.packetType, l0, l1, e.descType], e.hdr, e.key⟩ (pre ++ e.trailing) =
+      .ok e.serialize :=
+  Tins.CryptoWire.serialize_agrees e hh l0 l1 pre hpre
+
+/-- **Dot11Beacon / tagged parameters**: `parseBeacon` yields `addr3()` and the first SSID option of the wire family's
+    `Dot11Beacon`, and throws exactly when that constructor throws -/
+theorem beacon_parse_is_wire_model (f : Bytes) :
+    (∃ d i, Tins.Wire.Wifi.Dot11.parse "Dot11Beacon" f = .ok (d, i) ∧
+        parseBeacon f = .ok (.beacon ((d.ext.drop 6).take 6) (Tins.CryptoWire.firstSsid d.opts))) ∨
+    (Tins.Wire.Wifi.Dot11.parse "Dot11Beacon" f = .throw .malformedPacket ∧ parseBeacon f = .throw .malformedPacket) :=
+  Tins.CryptoWire.parseBeacon_agrees f
+
+/-- non-vacuity: a 99-byte RSN EAPOL-Key frame is parsed (by both models) into an object with a 94-byte header -/
+example : (parseEapol ([1, 3, 0, 95, 2] ++ List.replicate 94 0)).toOption.bind (·.map (·.hdr.length)) = some 94 := by decide
 
 end Tins.Props.C09
